@@ -130,10 +130,22 @@ def spec_constant_op(ctx):
         calls_generic = False
         narrowing = []
         for n in walk(f["body"]):
+            # `kind != K` filters
             if n[0] == "binary" and n[1] == "!=" and show(n[2]).endswith(".kind"):
                 p = path_of(n[3])
                 if p:
                     filt.add(p.split("::")[-1])
+            # match on the kind: arms that come before the arm calling the generic parser exclude their kinds
+            if n[0] == "match" and show(n[1]).endswith(".kind"):
+                for pat, guard, body in n[2]:
+                    if any(x[0] == "mcall" and x[2] == "parse_operand" for x in walk(body)):
+                        break
+                    if guard is not None:
+                        continue
+                    for p_ in (pat[1] if pat[0] == "p_or" else [pat]):
+                        q = path_of(p_)
+                        if q and len(q.split("::")) >= 2:
+                            filt.add(q.split("::")[-1])
             if n[0] == "mcall" and n[2] == "parse_operand" and path_of(n[1]) == "self":
                 calls_generic = True
             if n[0] == "cast" and n[2] in ("u16", "u8"):
